@@ -26,6 +26,11 @@ var negInf = math.Inf(-1)
 type ksum struct{ s, c, abs float64 }
 
 func (k *ksum) add(v float64) {
+	if math.IsInf(v, 0) || math.IsNaN(v) || math.IsInf(k.s, 0) {
+		k.s += v
+		k.abs += math.Abs(v)
+		return
+	}
 	y := v - k.c
 	t := k.s + y
 	k.c = (t - k.s) - y
